@@ -45,7 +45,7 @@ def strat(tier):
         'sub': st.just('fault'),
         'overwrite': st.booleans(), 'overwrite_part': st.booleans(), 'rm_part_on_exc': st.sampled_from([True, True, True, False]),
         'text_mode': st.booleans(),
-        'file_perms': st.integers(0, len(PERMS) - 1),
+        'file_perms': st.sampled_from([0, 0, 0, 0] + list(range(1, len(PERMS)))),      # a third without explicit permissions
         'umask': st.integers(0, len(UMASKS) - 1),
         'dest': st.one_of(st.none(), st.integers(1, len(PERMS) - 1)),      # None absent, else index of its mode
         'part': st.sampled_from([False, False, True]),
